@@ -71,6 +71,7 @@ type alloc struct {
 	open     bool
 	uploads  map[string]int64 // blobber id -> bytes stored through our markers
 	closedBy string
+	thirdParty bool
 }
 
 // machine is one generated storage history.
@@ -131,7 +132,7 @@ func newMachine(t *rapid.T, prop string) *machine {
 var base0 *simstorage.World
 
 // freeWorld lists the properties whose machines start from the base that admits free allocations.
-var freeWorld = map[string]bool{"C24": true, "C14": true, "C09": true}
+var freeWorld = map[string]bool{"C24": true, "C14": true, "C09": true, "C04": true}
 
 func (m *machine) viol(key, format string, a ...interface{}) string {
 	return vkit.Violation(m.prop, key, "%s :: last steps %v", fmt.Sprintf(format, a...), m.h.Render(8))
@@ -566,6 +567,49 @@ func (m *machine) step() {
 			m.do(w.StakeUnlock(from, c.p))
 		} else {
 			m.do(w.CollectReward(from, c.p))
+		}
+	case "newAlloc2":
+		owner := m.client("owner")
+		data, parity := 2, 1
+		switch rapid.IntRange(0, 3).Draw(t, "shards") {
+		case 0:
+			data, parity = 1, 1
+		case 1:
+			data, parity = 2, 2
+		case 2:
+			data, parity = 3, 1
+		}
+		ids := rapid.Permutation(w.BlobberIDs(len(w.Blobbers))).Draw(t, "candidates")
+		size := rapid.SampledFrom([]int64{simstorage.GB, 2 * simstorage.GB, simstorage.GB / 2, 10 * simstorage.GB, 700 * simstorage.GB}).Draw(t, "size")
+		// the cost of the allocation at the world's write price 0.1 per GB: sum over the blobbers of ceil(size/data) GB x price
+		per := (size + int64(data) - 1) / int64(data)
+		cost := uint64(float64(per) / float64(simstorage.GB) * float64(zcn/10) * float64(data+parity))
+		lock := currency.Coin(rapid.SampledFrom([]uint64{5 * zcn, cost, cost + 1, 1 * zcn, 100 * zcn, cost - 1, 2 * cost}).Draw(t, "lock"))
+		p := simstorage.AllocParams{Owner: owner, DataShards: data, ParityShards: parity, Size: size, Blobbers: ids, Lock: &lock,
+			ThirdPartyExtendable: rapid.IntRange(0, 2).Draw(t, "thirdParty") == 1}
+		txn := w.NewAllocation(p)
+		m.cur = curOp{op: op, from: owner}
+		m.onApplied = func(o sim.Outcome) {
+			if ok(o) {
+				m.allocs = append(m.allocs, &alloc{id: txn.Hash, owner: owner, open: true, uploads: map[string]int64{}, thirdParty: p.ThirdPartyExtendable})
+			}
+		}
+		m.do(txn)
+	case "extend2":
+		// extension / growth by the owner or by a third party, with or without tokens attached
+		if a := m.pickAlloc(true); a != nil {
+			p := simstorage.UpdateParams{From: a.owner, AllocID: a.id, Extend: true, Lock: currency.Coin(rapid.SampledFrom([]uint64{0, zcn, 50 * zcn, 1}).Draw(t, "lock"))}
+			switch rapid.IntRange(0, 3).Draw(t, "what") {
+			case 1:
+				p.SizeDelta = rapid.SampledFrom([]int64{simstorage.GB / 4, simstorage.GB, 5 * simstorage.GB}).Draw(t, "delta")
+			case 2:
+				p.SetThirdPartyExtendable = true
+			}
+			if rapid.IntRange(0, 2).Draw(t, "byThirdParty") == 1 {
+				p.From = m.client("thirdParty")
+			}
+			m.cur = curOp{op: op, alloc: a, from: p.From, wasOpen: a.open}
+			m.do(w.UpdateAllocation(p))
 		}
 	case "blockRewards2":
 		// move to the next round at which the contract pays block rewards, then trigger them
